@@ -127,7 +127,13 @@ impl Future for StatusFuture {
         crate::verif_hooks::Site::StatusCheckRegister,
       );
       self.0.waker.register(cx.waker());
-      Poll::Pending
+      // check again: the source may have terminated (and called `wake` on a
+      // still empty waker) between the first check and the registration.
+      if self.0.is_closed() {
+        Poll::Ready(NormalReturn::new(()))
+      } else {
+        Poll::Pending
+      }
     }
   }
 }
